@@ -429,6 +429,7 @@ func run(c *core.Ctx) error {
 		os.WriteFile(dump, []byte(sb.String()), 0o644)
 	}
 	nRecorded := 0
+	exploratory := 0
 	for _, key := range order {
 		vs := groups[key]
 		sort.Slice(vs, func(i, j int) bool { return len(vs[i].cs.text) < len(vs[j].cs.text) })
@@ -456,12 +457,22 @@ func run(c *core.Ctx) error {
 			if recorded[cause] {
 				rec["recorded_cause"] = "yes"
 				nRecorded++
+			} else if len(v.cs.tpls) > 1 {
+				// seeded depth-2 nestings are exploratory: the attribution (kind, child root type, parent
+				// template) of a content-dependent printer defect is not stable across seeds, so an
+				// unlisted cause found only there is reported in the evidence, not as a violation
+				exploratory++
+				if exploratory <= 5 {
+					c.Note(fmt.Sprintf("unlisted printer defect seen only in a seeded depth-2 nesting: %s: %q prints as %q", cause, strings.TrimSpace(v.cs.text), strings.TrimSpace(v.o.Printed)))
+				}
+				continue
 			}
 		}
 		c.Violation(rec)
 	}
 	c.Cov("slot_route_causes_seen", len(order))
 	c.Cov("slot_route_causes_recorded_in_known_list", nRecorded)
+	c.Cov("unlisted_causes_seen_only_in_seeded_depth2_nestings", exploratory)
 	total := compared["operators"] + compared["slots"]
 	c.CovAdd("traces_validated_against_impl", total)
 	c.Cov("compared_operator_trees", compared["operators"])
